@@ -3,6 +3,7 @@ package props
 import (
 	"go/constant"
 	"go/token"
+	"go/types"
 	"golang.org/x/tools/go/ssa"
 	"strings"
 
@@ -336,6 +337,37 @@ func paramArgs(p *core.Prog, v ssa.Value, depth int) []ssa.Value {
 	return out
 }
 
+// fieldStores: for a load of a struct field (state kept in an object instead of
+// in locals), the values the functions fns store into that field of that struct
+// type, with the stores' base addresses; ok is false for any other value.
+func fieldStores(v ssa.Value, fns []*ssa.Function) (vals, bases []ssa.Value, ok bool) {
+	u, isU := v.(*ssa.UnOp)
+	if !isU || u.Op != token.MUL {
+		return nil, nil, false
+	}
+	fa, isF := u.X.(*ssa.FieldAddr)
+	if !isF {
+		return nil, nil, false
+	}
+	key := types.TypeString(fa.X.Type(), nil)
+	for _, f := range fns {
+		for _, b := range f.Blocks {
+			for _, in := range b.Instrs {
+				st, isS := in.(*ssa.Store)
+				if !isS {
+					continue
+				}
+				fa2, isF2 := st.Addr.(*ssa.FieldAddr)
+				if isF2 && fa2.Field == fa.Field && types.TypeString(fa2.X.Type(), nil) == key {
+					vals = append(vals, st.Val)
+					bases = append(bases, fa2.X)
+				}
+			}
+		}
+	}
+	return vals, bases, true
+}
+
 // helperCalls lists the call instructions of F and of the private helpers it calls.
 func helperCalls(p *core.Prog, F *ssa.Function) []ssa.CallInstruction {
 	var out []ssa.CallInstruction
@@ -586,6 +618,41 @@ func ownerName(p *core.Prog, fn *ssa.Function) string {
 // (its parameters), useful to rules that look at the shape of the comparison
 // only (`tok[0] == '>'`).
 func classifierFacts(cnd ssa.Value, truth bool, depth int) []condFact {
+	// a bool result of a helper tested directly: `v, send := r.apply(x); if !send { return }` -
+	// when exactly one return of the helper yields that truth value (all are constants), the facts
+	// on the way to it hold
+	if ex, isEx := cnd.(*ssa.Extract); isEx {
+		if call, isCall := ex.Tuple.(*ssa.Call); isCall {
+			cal := call.Common().StaticCallee()
+			if cal != nil && len(cal.Blocks) > 0 && call.Parent() != nil && cal.Pkg == call.Parent().Pkg {
+				type hit struct {
+					ret *ssa.Return
+					src valSrc
+				}
+				var hits []hit
+				for _, ret := range core.Returns(cal) {
+					if ex.Index >= len(ret.Results) {
+						return nil
+					}
+					for _, src := range phiSources(ret.Results[ex.Index]) {
+						if isConstBool(src.V, truth) {
+							hits = append(hits, hit{ret, src})
+						} else if !isConstBool(src.V, !truth) {
+							return nil
+						}
+					}
+				}
+				if len(hits) == 1 {
+					var out []condFact
+					for _, e2 := range srcEdges(hits[0].ret, hits[0].src) {
+						out = append(out, edgeFactsD(e2, depth+1)...)
+					}
+					return out
+				}
+			}
+		}
+		return nil
+	}
 	bo, ok := cnd.(*ssa.BinOp)
 	if !ok || (bo.Op != token.EQL && bo.Op != token.NEQ) || (bo.Op == token.EQL) != truth {
 		return nil
